@@ -402,7 +402,8 @@ def run_rebind(sname, pair, how, res):
   if problems:
     res.violation('reference_scope' if any('ran under' in p for p in problems) else 'delivered_value',
                   '%r: after re-binding %s -> %s: %s' % (desc, render(t, a), want_text, '; '.join(problems[:3])), desc)
-  elif want_text.replace(' ', '') not in shown.replace(' ', '').replace('\n', '').replace('\\', ''):
+  elif want_text.replace(' ', '').replace('c04.', '') not in shown.replace(' ', '').replace('\n', '').replace('\\', '').replace('c04.', ''):
+    # (module prefixes are not compared: config_str prints references with their minimal selectors)
     res.violation('config_str_lost_reference', '%r: config_str does not show the re-bound value %s:\n%s' %
                   (desc, want_text, shown), desc)
   else:
